@@ -438,16 +438,16 @@ def srvCloseExc2 (s : St) (t : Tid) (e : Exc) : St :=
 def srvCloseRead (s : St) (t : Tid) : St :=
   match scanClose s.buf with
   | some (c, rest) =>
-    let (s, _) := exitTmo { s with buf := rest } t none
+    let s := (exitTmo { s with buf := rest } t none).1
     closeReturn (srvSetCodeCloseTransport s c) t (.ok true)
   | none =>
     let s := { s with buf := [] }
     if s.eof then
       let e := match s.rexc with | some c => Exc.wserr c | none => Exc.eof
-      let (s, _) := exitTmo s t none
+      let s := (exitTmo s t none).1
       srvCloseExc2 s t e
     else if s.rwaiter.isSome then
-      let (s, _) := exitTmo s t none
+      let s := (exitTmo s t none).1
       srvCloseExc2 s t .assertion
     else park { s with rwaiter := some t } t .closeRead
 
@@ -463,20 +463,22 @@ def srvCloseAfterDrain (s : St) (t : Tid) : St :=
 
 def srvCloseAfterFrame (s : St) (t : Tid) : St :=
   if (getT s t).cdrain && s.protoTransport && s.paused then
-    match drainHelper s with
-    | (s, .park) => park s t .closeDrain2
-    | (s, .raised e) => srvCloseExc1 s t e
-    | (s, .ok) => srvCloseAfterDrain s t
+    let r := drainHelper s
+    match r.2 with
+    | .park => park r.1 t .closeDrain2
+    | .raised e => srvCloseExc1 r.1 t e
+    | .ok => srvCloseAfterDrain r.1 t
   else srvCloseAfterDrain s t
 
 def srvCloseEnter (s : St) (t : Tid) (code : Nat) (drain : Bool) : St :=
   if s.closed then closeReturn s t (.ok false)
   else
     let s := setT (setClosed s) t (fun x => { x with cdrain := drain, startedAt := s.now })
-    match sendFrame s (.close code) 2 with
-    | (s, .park) => park s t .closeDrain1
-    | (s, .raised e) => srvCloseExc1 { s with wClosing := true } t e
-    | (s, .ok) => srvCloseAfterFrame { s with wClosing := true } t
+    let r := sendFrame s (.close code) 2
+    match r.2 with
+    | .park => park r.1 t .closeDrain1
+    | .raised e => srvCloseExc1 { r.1 with wClosing := true } t e
+    | .ok => srvCloseAfterFrame { r.1 with wClosing := true } t
 
 /-! ## client `close()` -/
 
@@ -492,16 +494,16 @@ def cliCloseRead (s : St) (t : Tid) : St :=
   let s := armTmo s t s.cfg.closeTimeout
   match scanClose s.buf with
   | some (c, rest) =>
-    let (s, _) := exitTmo { s with buf := rest } t none
+    let s := (exitTmo { s with buf := rest } t none).1
     closeReturn (cliRespClose { s with closeCode := some c }) t (.ok true)
   | none =>
     let s := { s with buf := [] }
     if s.eof then
       let e := match s.rexc with | some c => Exc.wserr c | none => Exc.eof
-      let (s, _) := exitTmo s t none
+      let s := (exitTmo s t none).1
       cliCloseExc s t e
     else if s.rwaiter.isSome then
-      let (s, _) := exitTmo s t none
+      let s := (exitTmo s t none).1
       cliCloseExc s t .assertion
     else park { s with rwaiter := some t } t .closeRead
 
@@ -514,10 +516,11 @@ def cliCloseAfterWait (s : St) (t : Tid) (code : Nat) : St :=
   if s.closed then closeReturn s t (.ok false)
   else
     let s := setT (setClosed s) t (fun x => { x with startedAt := s.now })
-    match sendFrame s (.close code) 2 with
-    | (s, .park) => park s t .closeDrain1
-    | (s, .raised e) => cliCloseExc { s with wClosing := true } t e
-    | (s, .ok) => cliCloseAfterFrame { s with wClosing := true } t
+    let r := sendFrame s (.close code) 2
+    match r.2 with
+    | .park => park r.1 t .closeDrain1
+    | .raised e => cliCloseExc { r.1 with wClosing := true } t e
+    | .ok => cliCloseAfterFrame { r.1 with wClosing := true } t
 
 def cliCloseEnter (s : St) (t : Tid) (code : Nat) : St :=
   if s.waiting && !s.closing then
@@ -591,10 +594,11 @@ def recvGot (s : St) (t : Tid) (r : Except Exc Msg) : St × Bool :=
     | .client => (finish (cliSetClosing s) t (.recv (.msg .closing)), false))
   | .ok .ping =>
     if s.cfg.autoping then
-      match sendFrame s .pong 0 with
-      | (s, .ok) => (s, true)
-      | (s, .raised e) => (finish s t (.raised e), false)
-      | (s, .park) => (park s t .recvPong, false)
+      let r := sendFrame s .pong 0
+      match r.2 with
+      | .ok => (r.1, true)
+      | .raised e => (finish r.1 t (.raised e), false)
+      | .park => (park r.1 t .recvPong, false)
     else (finish s t (.recv (.msg .ping)), false)
   | .ok .pong =>
     if s.cfg.autoping then (s, true) else (finish s t (.recv (.msg .pong)), false)
@@ -622,15 +626,14 @@ def recvLoop (s : St) (t : Tid) : Nat → St
         | none => s
       if s.buf.isEmpty && !s.eof then
         if s.rwaiter.isSome then
-          let (s, _) := exitTmo s t none
+          let s := (exitTmo s t none).1
           recvExc (recvFinally s) t .assertion
         else park { s with rwaiter := some t } t .recvRead
       else
-        let (s, r) := readFromBuffer s
-        let (s, _) := exitTmo s t none
-        match recvGot (recvFinally s) t r with
-        | (s, true) => recvLoop s t fuel
-        | (s, false) => s
+        let rb := readFromBuffer s
+        let s := (exitTmo rb.1 t none).1
+        let g := recvGot (recvFinally s) t rb.2
+        if g.2 then recvLoop g.1 t fuel else g.1
 
 def recvFuel (s : St) : Nat := s.buf.length + 2
 
@@ -645,10 +648,48 @@ def resumeValue (x : Task) : Option Exc :=
     | _ => none
 
 def sendStart (s : St) (t : Tid) (fr : Frame) (n : Nat) : St :=
-  match sendFrame s fr n with
-  | (s, .ok) => finish s t .sent
-  | (s, .raised e) => finish s t (.raised e)
-  | (s, .park) => park s t .sendDrain
+  let r := sendFrame s fr n
+  match r.2 with
+  | .ok => finish r.1 t .sent
+  | .raised e => finish r.1 t (.raised e)
+  | .park => park r.1 t .sendDrain
+
+/-- resume of a task parked in `reader.read()` inside receive() -/
+def resumeRecvRead (s : St) (t : Tid) (rv : Option Exc) : St :=
+  -- `read()`: `except (CancelledError, TimeoutError): self._waiter = None; raise`
+  let s := if rv = some .cancelled then { s with rwaiter := none } else s
+  let rb : St × Except Exc Msg := match rv with
+    | some e => (s, .error e)
+    | none => readFromBuffer s
+  let x := exitTmo rb.1 t (match rb.2 with | .error e => some e | .ok _ => none)
+  let r : Except Exc Msg := match rb.2 with
+    | .error e => .error (x.2.getD e)
+    | .ok m => .ok m
+  let g := recvGot (recvFinally x.1) t r
+  if g.2 then recvLoop g.1 t (recvFuel g.1) else g.1
+
+/-- resume of a task parked in `reader.read()` inside close() -/
+def resumeCloseRead (s : St) (t : Tid) (rv : Option Exc) : St :=
+  let s := if rv = some .cancelled then { s with rwaiter := none } else s
+  match rv with
+  | some e =>
+    let x := exitTmo s t (some e)
+    let e := x.2.getD e
+    match s.cfg.side with
+    | .server => srvCloseExc2 x.1 t e
+    | .client => cliCloseExc x.1 t e
+  | none =>
+    -- `read()` resumes with `return self._read_from_buffer()` — no second emptiness check:
+    -- if another reader took the message meanwhile this raises EofStream / the stored exception
+    let rb := readFromBuffer s
+    let s1 := (exitTmo rb.1 t none).1
+    match rb.2, s.cfg.side with
+    | .ok (.close c), .server => closeReturn (srvSetCodeCloseTransport s1 c) t (.ok true)
+    | .ok _, .server => srvCloseRead rb.1 t
+    | .error e, .server => srvCloseExc2 s1 t e
+    | .ok (.close c), .client => closeReturn (cliRespClose { s1 with closeCode := some c }) t (.ok true)
+    | .ok _, .client => cliCloseRead s1 t
+    | .error e, .client => cliCloseExc s1 t e
 
 def runTask (s : St) (t : Tid) : St :=
   let x := getT s t
@@ -674,20 +715,7 @@ def runTask (s : St) (t : Tid) : St :=
     (match rv with
     | some e => finish s t (.raised e)
     | none => recvLoop s t (recvFuel s))
-  | .recvRead =>
-    -- `read()`: `except (CancelledError, TimeoutError): self._waiter = None; raise`
-    let s := if rv = some .cancelled then { s with rwaiter := none } else s
-    let (s, r) : St × Except Exc Msg := match rv with
-      | some e => (s, .error e)
-      | none => readFromBuffer s
-    let (s, r) : St × Except Exc Msg := match r with
-      | .error e =>
-        let (s, e') := exitTmo s t (some e)
-        (s, .error (e'.getD e))
-      | .ok m => ((exitTmo s t none).1, .ok m)
-    (match recvGot (recvFinally s) t r with
-    | (s, true) => recvLoop s t (recvFuel s)
-    | (s, false) => s)
+  | .recvRead => resumeRecvRead s t rv
   | .closeDrain1 =>
     let s := { s with wClosing := true }      -- `finally: self._closing = True` of `WebSocketWriter.close`
     (match s.cfg.side, rv with
@@ -706,27 +734,7 @@ def runTask (s : St) (t : Tid) : St :=
       match s.cfg.side with
       | .server => srvCloseAfterWait s t
       | .client => cliCloseAfterWait s t (closeArg x))
-  | .closeRead =>
-    let s := if rv = some .cancelled then { s with rwaiter := none } else s
-    (match rv with
-    | some e =>
-      let (s, e') := exitTmo s t (some e)
-      let e := e'.getD e
-      (match s.cfg.side with
-      | .server => srvCloseExc2 s t e
-      | .client => cliCloseExc s t e)
-    | none =>
-      -- `read()` resumes with `return self._read_from_buffer()` — no second emptiness check:
-      -- if another reader took the message meanwhile this raises EofStream / the stored exception
-      match readFromBuffer s, s.cfg.side with
-      | (s, .ok (.close c)), .server =>
-        closeReturn (srvSetCodeCloseTransport (exitTmo s t none).1 c) t (.ok true)
-      | (s, .ok _), .server => srvCloseRead s t
-      | (s, .error e), .server => srvCloseExc2 (exitTmo s t none).1 t e
-      | (s, .ok (.close c)), .client =>
-        closeReturn (cliRespClose { (exitTmo s t none).1 with closeCode := some c }) t (.ok true)
-      | (s, .ok _), .client => cliCloseRead (exitTmo s t none).1 t
-      | (s, .error e), .client => cliCloseExc (exitTmo s t none).1 t e)
+  | .closeRead => resumeCloseRead s t rv
 
 /-! ## loop callbacks -/
 
@@ -752,13 +760,14 @@ def sendHeartbeat (s : St) : St :=
       -- `asyncio.Task(send_frame(b"", PING), eager_start=True)`
       let p := s.tasks.length
       let s := { s with tasks := s.tasks ++ [{ op := .hbPing, pc := .start }] }
-      match sendFrame s .ping 0 with
-      | (s, .park) => { park s p .sendDrain with pingTask := some p }
-      | (s, .ok) =>
-        let s := setT s p (fun x => { x with pc := .done, outcome := some .sent })
+      let r := sendFrame s .ping 0
+      match r.2 with
+      | .park => { park r.1 p .sendDrain with pingTask := some p }
+      | .ok =>
+        let s := setT r.1 p (fun x => { x with pc := .done, outcome := some .sent })
         pingTaskDone s (some .sent)
-      | (s, .raised e) =>
-        let s := setT s p (fun x => { x with pc := .done, outcome := some (.raised e) })
+      | .raised e =>
+        let s := setT r.1 p (fun x => { x with pc := .done, outcome := some (.raised e) })
         pingTaskDone s (some (.raised e))
 
 /-- `_pong_not_received()` -/
